@@ -34,10 +34,23 @@ the window's text nodes, in document order — for every tree, window, display a
 resolvers (root other than `body`; for `body` see `body_step_keeps_characters`). -/
 theorem text_render_excerpt (A : CAtoms) (abs absSet : String → String) (ids : List Nat) (top : Node)
     (anc : List Shell) (r0 out : Node)
+    (hv : ∀ anc0 c, treeClone ids top = some (anc0, c) → NoVoid anc0)
     (hs : textCloneStart ids top = some (anc, r0)) (hb : r0.tag ≠ "body")
     (h : textClone A abs absSet ids top = some out) :
     out.textIds = top.textIds.filter (fun i => ids.contains i) :=
-  textClone_textIds A abs absSet ids top anc r0 out hs hb h
+  textClone_textIds A abs absSet ids top anc r0 out hv hs hb h
+
+/-- … and without the premise `hv` (no ancestor of the window is named like a void HTML element — in
+the HTML namespace the parser gives such elements no children, so only SVG / MathML elements such as
+`<math><wbr>text` can break it; `dom.AppendChild` then refuses to put the clone into the ancestor's copy
+and the implementation loses that text from both views, as the model does): the clone never holds a
+text node from outside the window, none twice, none out of order. -/
+theorem text_render_never_adds (A : CAtoms) (abs absSet : String → String) (ids : List Nat) (top : Node)
+    (anc : List Shell) (r0 out : Node)
+    (hs : textCloneStart ids top = some (anc, r0)) (hb : r0.tag ≠ "body")
+    (h : textClone A abs absSet ids top = some out) :
+    out.textIds.Sublist (top.textIds.filter (fun i => ids.contains i)) :=
+  textClone_textIds_sublist A abs absSet ids top anc r0 out hs hb h
 
 theorem body_step_keeps_characters (i : Nat) (attrs : List Attr) (ks : List Node) :
     ∃ ks', bodyToDiv (.elem i "body" attrs ks) = .elem synthDivId "div" [] (trimLastText (trimFirstText ks')) ∧
